@@ -25,7 +25,7 @@ pub fn info() -> PropInfo {
         id: "C19",
         run,
         replay,
-        rule: "cases = (sequence of events over all ten kinds, balanced or not, Eof only last; indent char in {space, tab, LF}; width 0..9; async sink schedule). (a) the indented output must parse, event by event, as [optional newline + indent characters] + exactly the plain bytes of that event, the optional part only before a markup event whose predecessor is not Text/CData; (b) reading both outputs and dropping whitespace-only text gives equal event streams; (c) the async writer produces the same bytes as the sync writer (plain and indented). Also serde: indented and plain serializations of generated values deserialize to equal values (stage serde). Non-trivial = the sequence has markup directly after text/CDATA and markup directly after markup. The indenting writer is also run through a synchronous sink with partial (plain / vectored) and interrupted writes: same bytes as into a Vec.",
+        rule: "cases = (sequence of events over all ten kinds, balanced or not, Eof only last; indent char in {space, tab, LF}; width 0..9; async sink schedule). (a) the indented output must parse, event by event, as [optional newline + indent characters] + exactly the plain bytes of that event, the optional part only before a markup event whose predecessor is not Text/CData; (b) reading both outputs and dropping whitespace-only text gives equal event streams; (c) the async writer produces the same bytes as the sync writer (plain and indented). Also serde: indented and plain serializations of generated values deserialize to equal values (stage serde). Non-trivial = the sequence has markup directly after text/CDATA and markup directly after markup. The indenting writer is also run through a synchronous sink with partial (plain / vectored) and interrupted writes: same bytes as into a Vec. The indenting writer is also cloned after a chosen number of events and the sequence finished on the clone: same bytes, no panic.",
         assumptions: &["event payloads are built through the public constructors within their preconditions (text escaped, comment/PI/CDATA content free of their terminators) so that reading back is meaningful", "insertion is optional wherever it is allowed; the amount of indentation is not asserted"],
         level: "exploration",
         variants: &["full"],
@@ -153,6 +153,30 @@ pub fn check(c: &Case) -> Verdict {
         Ok(a) if a == ind => {}
         Ok(a) => return Verdict::fail(format!("indenting writer through a sink with partial writes produced {:?}, into a Vec {:?}", B::show(&a), B::show(&ind))),
         Err(m) => return Verdict::fail(m),
+    }
+    // a writer CLONED in the middle of the sequence carries on exactly like the original
+    {
+        let at = (c.sink.1 as usize) % (events.len() + 1);
+        let r = std::panic::catch_unwind(std::panic::AssertUnwindSafe(|| -> Result<Vec<u8>, String> {
+            let mut w = Writer::new_with_indent(Vec::new(), c.indent_char, c.indent_size as usize);
+            for e in &events[..at] {
+                w.write_event(e.borrow()).map_err(|e| format!("write_event failed: {}", e))?;
+            }
+            let mut w2 = w.clone();
+            for e in &events[at..] {
+                w2.write_event(e.borrow()).map_err(|e| format!("write_event failed on the cloned writer: {}", e))?;
+            }
+            Ok(w2.into_inner())
+        }));
+        match r {
+            Ok(Ok(a)) if a == ind => {}
+            Ok(Ok(a)) => return Verdict::fail(format!("an indenting writer cloned after {} events produced {:?}, the original {:?}", at, B::show(&a), B::show(&ind))),
+            Ok(Err(m)) => return Verdict::fail(m),
+            Err(p) => {
+                let msg = p.downcast_ref::<String>().cloned().or_else(|| p.downcast_ref::<&str>().map(|s| s.to_string())).unwrap_or_default();
+                return Verdict::fail(format!("an indenting writer cloned after {} events panics: {}", at, msg));
+            }
+        }
     }
     // (c) async == sync
     match write_all_async(&events, None, c.sink) {
